@@ -300,7 +300,8 @@ void wide(Rng& rng)
         for (auto const& b : B) {
             cmp6(a, b);
             arith(a, b);
-            hasheq(a, b);
+            // the hash/equality contract is that of one std::hash<T> specialisation
+            if constexpr (std::is_same_v<FA, FB>) hasheq(a, b);
         }
     for (auto const& a : A) {
         reduction(a);
